@@ -157,6 +157,10 @@ def dump_model(m, case):
             return ["i", v]
         if type(v) is list and all(type(x) is int for x in v):
             return ["l", v]
+        if hasattr(v, "_is_valid") and not v._is_valid():
+            # a null object, e.g. a derived relative reference to a child space the derived space does not have:
+            # a cells / space that does not exist (every use fails, as in the model)
+            return ["cell", len(order), "null"] if isinstance(v, Cells) else ["obj", len(order)]
         if isinstance(v, Cells):
             ps = v.parent
             return ["cell", sids[id(ps._impl)], v.name] if id(ps._impl) in sids else ["opaque"]
